@@ -320,9 +320,11 @@ Fixpoint collect_item (imp : list (N * path)) (it : item) (c : cstate) : cstate 
   | Cls n h bs b =>
       let c1 := c_push [n] c in
       let c2 := c_use imp bs c1 in
+      (* a base that is not a Name/Attribute/Subscript raises ValueError *)
       let c3 := mkC (cq c2) (cfuns c2) (cattrs c2)
                     (dict_set N.eqb n (Cls n h (map dq_expr bs) b) (cclasses c2))
-                    (ctvs c2) (cnames c2) (cneeds c2) (cerr c2) in
+                    (ctvs c2) (cnames c2) (cneeds c2)
+                    (cerr c2 || existsb (fun b => match b with EStr _ | EOther _ _ => true | _ => false end) bs) in
       c_pop ((fix go (l : list item) (c : cstate) : cstate :=
                 match l with [] => c | x :: r => go r (collect_item imp x c) end) b c3)
   | Fun n d ps r b =>
@@ -394,16 +396,17 @@ Record astate := mkA {
   stv : list path;           (* self.typevars keys *)
   changed : bool;            (* annotation_counts.any_changes_applied() so far *)
   leak : bool;               (* monitor: _annotate_single_target returned without popping *)
-  clsdecl : bool }.          (* monitor: a toplevel declaration was recorded under a non-empty qualifier *)
+  clsdecl : bool;            (* monitor: a toplevel declaration was recorded under a non-empty qualifier *)
+  genadd : bool }.           (* monitor: a Generic[...] base was appended to a class *)
 
-Definition a0 : astate := mkA [] [] [] [] [] false false false.
+Definition a0 : astate := mkA [] [] [] [] [] false false false false.
 
 Definition a_push (p : path) (s : astate) : astate :=
-  mkA (qual s ++ [p]) (done s) (visited s) (decls s) (stv s) (changed s) (leak s) (clsdecl s).
+  mkA (qual s ++ [p]) (done s) (visited s) (decls s) (stv s) (changed s) (leak s) (clsdecl s) (genadd s).
 Definition a_pop (s : astate) : astate :=
-  mkA (removelast (qual s)) (done s) (visited s) (decls s) (stv s) (changed s) (leak s) (clsdecl s).
+  mkA (removelast (qual s)) (done s) (visited s) (decls s) (stv s) (changed s) (leak s) (clsdecl s) (genadd s).
 Definition a_changed (s : astate) : astate :=
-  mkA (qual s) (done s) (visited s) (decls s) (stv s) true (leak s) (clsdecl s).
+  mkA (qual s) (done s) (visited s) (decls s) (stv s) true (leak s) (clsdecl s) (genadd s).
 
 (* _quote_future_annotations *)
 Definition quote (gn vis : list N) (a : expr) : expr :=
@@ -498,6 +501,7 @@ Definition add_toplevel (e : env) (nm : path) (s : astate) : astate :=
   | Some a => mkA (qual s) (done s) (visited s) (dict_set path_eqb nm a (decls s)) (stv s)
                   (changed s) (leak s)
                   (clsdecl s || negb (match qname (qual s) with [] => true | _ => false end))
+                  (genadd s)
   | None => s
   end.
 
@@ -515,7 +519,7 @@ Definition apply_assign (e : env) (ts : list target) (v : value) (s : astate) : 
              match ts with
              | t :: _ => match tname t with
                          | Some nm => mkA (qual s) (done s) (visited s) (decls s) (nm :: stv s)
-                                          (changed s) (leak s) (clsdecl s)
+                                          (changed s) (leak s) (clsdecl s) (genadd s)
                          | None => s
                          end
              | [] => s
@@ -538,10 +542,10 @@ Definition apply_assign (e : env) (ts : list target) (v : value) (s : astate) : 
                   if mem_path qn (done s1) then
                     (* falls through to `return updated_node` WITHOUT self.qualifier.pop() *)
                     (Assign ts v,
-                     mkA (qual s1) (done s1) (visited s1) (decls s1) (stv s1) (changed s1) true (clsdecl s1))
+                     mkA (qual s1) (done s1) (visited s1) (decls s1) (stv s1) (changed s1) true (clsdecl s1) (genadd s1))
                   else
                     let s2 := a_pop (mkA (qual s1) (qn :: done s1) (visited s1) (decls s1) (stv s1)
-                                         true (leak s1) (clsdecl s1)) in
+                                         true (leak s1) (clsdecl s1) (genadd s1)) in
                     (AnnAssign (mkT KName (Some nm) 0) (quote (egnames e) (visited s2) a) (Some v), s2)
               | _, _ => (Assign ts v, a_pop s1)
               end
@@ -587,13 +591,15 @@ Fixpoint apply_item (e : env) (it : item) (s : astate) : item * astate :=
            end) b s1 in
       let cls_name := qname (qual s2) in
       let s3 := a_pop (mkA (qual s2) (done s2) (n :: visited s2) (decls s2) (stv s2)
-                           (changed s2) (leak s2) (clsdecl s2)) in
+                           (changed s2) (leak s2) (clsdecl s2) (genadd s2)) in
       match cls_name with
       | [k] =>
           match dict_get N.eqb k (eclasses e) with
           | Some (Cls _ _ sbs _) =>
               match find_generic_base sbs, find_generic_base bs with
-              | Some b1, None => (Cls n h (bs ++ [b1]) b', a_changed s3)
+              | Some b1, None =>
+                  (Cls n h (bs ++ [b1]) b',
+                   mkA (qual s3) (done s3) (visited s3) (decls s3) (stv s3) true (leak s3) (clsdecl s3) true)
               | _, _ => (Cls n h bs b', s3)
               end
           | _ => (Cls n h bs b', s3)
@@ -715,8 +721,6 @@ Record merged := mkM {
 
 Definition single (nm : path) : bool := match nm with [_] => true | _ => false end.
 
-Definition has_generic_added (p core : list item) : bool := false.
-
 Definition merge (v : variant) (p s : list item) : merged :=
   let s' := filter_stub v s in
   let imp := stub_imports s' in
@@ -738,8 +742,7 @@ Definition merge (v : variant) (p s : list item) : merged :=
   mkM (if any_change then out else p)
       (cerr c || negb (forallb (fun kd => single (fst kd)) (decls st)))
       (leak st) (clsdecl st) (cneeds c) (map fst fresh)
-      (negb (list_eqb (fun a b => true) (flat_map (fun it => match it with Cls _ _ bs _ => bs | _ => [] end) core)
-                      (flat_map (fun it => match it with Cls _ _ bs _ => bs | _ => [] end) p))).
+      (genadd st).
 
 (* ------------------------------------------------------------------------------------------ *)
 (* erase: remove every annotation, annotation-only statements, and the typing imports / TypeVar
@@ -879,3 +882,66 @@ Definition dotted_free (s : list item) : bool := negb (existsb item_dotted s).
 
 (* every import the stub asks for is `from typing import ...` *)
 Definition needs_typing_only (m : merged) : bool := forallb (fun mn => is_typing (fst mn)) (m_needs m).
+
+(* ------------------------------------------------------------------------------------------ *)
+(* serialisation to a token stream, compared by the harness with the same serialisation of the
+   `ast` projection of the real merge_sources output ([Added] marks are not observable) *)
+
+Definition ser_list {A} (f : A -> list N) (l : list A) : list N := N.of_nat (length l) :: flat_map f l.
+Definition ser_opt {A} (f : A -> list N) (o : option A) : list N :=
+  match o with None => [0] | Some a => 1 :: f a end.
+Definition ser_path (p : path) : list N := ser_list (fun x => [x]) p.
+Definition b2n (b : bool) : N := if b then 1 else 0.
+
+Fixpoint ser_expr (e : expr) : list N :=
+  match e with
+  | EName n => [1; n]
+  | EAttr q n => 2 :: ser_path q ++ [n]
+  | ESub h args => 3 :: ser_expr h ++ N.of_nat (length args) :: flat_map ser_expr args
+  | EStr n => [4; n]
+  | EOther i subs => 5 :: i :: N.of_nat (length subs) :: flat_map ser_expr subs
+  end.
+
+Definition ser_param (p : param) : list N :=
+  pname p :: ser_opt ser_expr (pann p) ++ ser_opt (fun d => [d]) (pdef p).
+Definition ser_params (ps : params) : list N :=
+  ser_list ser_param (posonly ps) ++ ser_list ser_param (pos ps) ++
+  (match star ps with NoStar => [0] | BareStar => [1] | StarArg p => 2 :: ser_param p end) ++
+  ser_list ser_param (kwonly ps) ++ ser_opt ser_param (kwstar ps).
+Definition ser_value (v : value) : list N := [vid v; b2n (vtv v)].
+Definition ser_target (t : target) : list N :=
+  (match tk t with
+   | KName => [0] | KAttr => [1] | KSub => [2]
+   | KTuple elts => 3 :: ser_list (ser_opt ser_path) elts
+   end) ++ ser_opt ser_path (tname t) ++ [tid t].
+
+Fixpoint ser_item (it : item) : list N :=
+  match it with
+  | Fun n d ps r b =>
+      10 :: n :: d :: ser_params ps ++ ser_opt ser_expr r ++ N.of_nat (length b) :: flat_map ser_item b
+  | Cls n h bs b =>
+      11 :: n :: h :: ser_list ser_expr bs ++ N.of_nat (length b) :: flat_map ser_item b
+  | Assign ts v => 12 :: ser_list ser_target ts ++ ser_value v
+  | AnnAssign t a v => 13 :: ser_target t ++ ser_expr a ++ ser_opt ser_value v
+  | Block i b => 14 :: i :: N.of_nat (length b) :: flat_map ser_item b
+  | Import f m ns ad i => 15 :: b2n f :: ser_path m ++ ser_list (fun x => [x]) (ad ++ ns) ++ [i]
+  | Doc i => [16; i]
+  | Other i => [17; i]
+  | Added x => ser_item x
+  end.
+
+Definition ser_merged (m : merged) : list N :=
+  if m_err m then [999] else N.of_nat (length (m_out m)) :: flat_map ser_item (m_out m).
+
+(* one correspondence case: result bits
+   1 as-written model = implementation, 2 fixed model = implementation, then monitors of the as-written
+   run: 4 leak, 8 clsdecl, 16 non-typing import requested, 32 fresh class injected, 64 Generic base added,
+   128 error *)
+Definition bit (b : bool) (w : N) : N := if b then w else 0.
+Definition check_case (c : list item * list item * list N) : N :=
+  let '(p, s, expected) := c in
+  let ma := merge AsWritten p s in
+  let mf := merge Fixed p s in
+  bit (list_eqb N.eqb (ser_merged ma) expected) 1 + bit (list_eqb N.eqb (ser_merged mf) expected) 2 +
+  bit (m_leak ma) 4 + bit (m_clsdecl ma) 8 + bit (negb (needs_typing_only ma)) 16 +
+  bit (negb (Nat.eqb (length (m_fresh ma)) 0)) 32 + bit (m_generic ma) 64 + bit (m_err ma) 128.
